@@ -356,6 +356,12 @@ func (m *Message) GetClassAdRaw(ctx context.Context) (string, error) {
 func (m *Message) GetClassAdRawBody(ctx context.Context, numExprs int) (string, error) {
 	var b strings.Builder
 	for i := 0; i < numExprs; i++ {
+		// A plaintext GetString at the end of the message returns "" without an
+		// error, so an over-stated count would otherwise keep this loop running
+		// (and the builder growing) long after the peer's bytes ran out.
+		if m.isEOM && m.buffer.Len() == 0 {
+			return "", fmt.Errorf("message ended after %d of %d expressions", i, numExprs)
+		}
 		exprStr, err := m.GetString(ctx)
 		if err != nil {
 			return "", fmt.Errorf("failed to read expression %d (expected %d): %w", i, numExprs, err)
